@@ -201,10 +201,17 @@ def case_badapplied(task):
 def run(tier, seed):
     res = common.Result('model_checking')
     m0 = tq.initial()
+    maxlen = 3
+    if tier != 'quick' and 'p4' not in NAMES:
+        # thorough: a fourth patch, sequences of up to four names
+        NAMES.append('p4')
+        TARGET['p4'] = 'd/h'
+    if tier != 'quick':
+        maxlen = 4
     texts = patch_texts(m0)
-    series_set = [s for s in seqs(3, False) if s] + [('p1', 'p1'), (), ('# only a comment', '')]
-    applied_set = seqs(3, True)
-    goals_all = [None, '0', '1', '2', '4', '-a', 'p1', 'p2', 'p3', 'bogus', '-a bogus', '-a p1', '-a p2', '-a 1']
+    series_set = [s for s in seqs(maxlen, False) if s] + [('p1', 'p1'), (), ('# only a comment', '')]
+    applied_set = seqs(maxlen, True)
+    goals_all = [None, '0', '1', '2', '4', '-a', 'p1', 'p2', 'p3', 'bogus', '-a bogus', '-a p1', '-a p2', '-a 1'] + (['3', '5', 'p4'] if tier != 'quick' else [])
     tasks = []
     for s in series_set:
         for a in applied_set:
@@ -239,8 +246,8 @@ def run(tier, seed):
     res.coverage['unreadable_applied_patches_sweep']['rule'] = ('.pc/applied-patches that is no prefix of the series because it cannot be read or understood at all (%s) x goal x threads x verbosity: '
                                                                'exit 1, a message, nothing changed') % ', '.join(BAD_APPLIED)
     cov = res.coverage
-    cov['rule'] = ('(1) all pairs (series, applied-patches): series = every duplicate-free sequence of 0..3 of the names p1,p2,p3 (+ one with a duplicate, + one with only a comment and a blank line), applied-patches = every sequence of '
-                   '0..3 names incl. duplicates (prefix, longer, reordered, edited, duplicated) x goals {none,0,1,2,4,-a,p1,p2,p3,unknown name, and -a combined with an unknown / a known name / a number} (4 goals when the state is inconsistent) x threads {1,2} x '
+    cov['rule'] = ('(1) all pairs (series, applied-patches): series = every duplicate-free sequence of 0..3 of the names p1,p2,p3 (thorough: 0..4 of p1..p4) (+ one with a duplicate, + one with only a comment and a blank line), applied-patches = every sequence of '
+                   '0..3 (thorough: 0..4) names incl. duplicates (prefix, longer, reordered, edited, duplicated) x goals {none,0,1,2,4,-a,p1,p2,p3,unknown name, and -a combined with an unknown / a known name / a number} (4 goals when the state is inconsistent) x threads {1,2} x '
                    '{-q, default}; consistent prefixes are produced by a real earlier push. (2) a missing / truncated / malformed-header / binary / malformed-body / directory-instead-of-file patch at every position j '
                    'of the range with 0..2 patches applied before, threads {1,2}, both verbosities, --backup always. Oracle whenever the statement\'s precondition holds: exit class 1 (never a crash), '
                    'non-empty stderr, full snapshot (bytes, modes, inodes, mtimes, .pc, patches, series) identical. non-trivial = runs where a refusal is required')
